@@ -215,7 +215,13 @@ def obligations(tier):
     # with observed parameters: the C12 contract of the three evaluate methods, reported under C05
     from contracts import c12
     for kind in ("ODE", "statio", "nonstatio"):
-        for o in (c12.batched(kind, ("a",), 2), c12.observed_and_batched(kind, 2)):
+        for o in (c12.batched(kind, ("a",), 2), c12.observed_and_batched(kind, 2), c12.observed_and_batched(kind, 2, same_key=True)):
             o.name = o.name.replace("C12/", "C05/")
             obs.append(o)
+    # the same terms inside a system loss: sum over the unknowns of the single-network term with that unknown's weight
+    # (applied once) — the C13 per-unknown contracts, reported under C05
+    from contracts import c13
+    for o in (c13.per_unknown_config_ode(), c13.per_unknown_config("nonstatio")):
+        o.name = o.name.replace("C13/", "C05/system/")
+        obs.append(o)
     return obs
